@@ -35,8 +35,9 @@ func tryRepeatProgs() []tryRepeatProg {
 		{"main-ret-val-continue", "n := 0\nfor i := 0; i < 3000; i++ {\n\ttry { return \"early\" } finally { n++; continue }\n}\nreturn n\n"},
 		{"callee-completes", loop(`x := [1, 2, func() { try { return 1 } finally { n++ } }()]`)},
 		{"normal-completion", loop(`try { n += 0 } catch e { n = -1 } finally { n++ }`)},
-		{"funclit-in-try-break", "f := func() {\n\tn := 0\n\ttry {\n\t\tg := func() { for i := 0; i < 3000; i++ { try { n++ } finally { if i >= 0 { continue } } } }\n\t\tg()\n\t} finally { n += 0 }\n\treturn n\n}\nreturn f()\n"},
-		{"funclit-in-nested-try-break", "f := func() {\n\tn := 0\n\ttry { try {\n\t\tg := func() { for i := 0; i < 6000; i++ { try { if i % 2 == 0 { continue }; n++ } finally { n += 0 } } }\n\t\tg()\n\t} finally { n += 0 } } catch e { n = -1 }\n\treturn n\n}\nreturn f()\n"},
+		{"funclit-in-try-break", "f := func() {\n\tn := 0\n\ttry {\n\t\tg := func() { for i := 0; i < 3000; i++ { try { if i % 2 == 0 { continue }; if i == 2999 { break } } finally { n++ } } }\n\t\tg()\n\t} finally { n += 0 }\n\treturn n\n}\nreturn f()\n"},
+		{"funclit-in-nested-try-return", "f := func() {\n\tn := 0\n\ttry { try {\n\t\tg := func(i) { try { if i % 3 == 0 { return 1 }; return 2 } finally { n++ } }\n\t\tfor i := 0; i < 3000; i++ { g(i) }\n\t} finally { n += 0 } } catch e { n = -1 }\n\treturn n\n}\nreturn f()\n"},
+		{"funclit-in-catch-and-finally", "f := func() {\n\tn := 0\n\ttry { throw 1 } catch e {\n\t\tg := func() { for i := 0; i < 1500; i++ { try { continue } finally { n++ } } }\n\t\tg()\n\t} finally {\n\t\th := func() { for i := 0; i < 1500; i++ { try { if i == 1499 { break } } finally { n++ } } }\n\t\th()\n\t}\n\treturn n\n}\nreturn f()\n"},
 		{"runtime-error-continue", loop(`try { n = n / (i - i) } finally { n++; continue }`)},
 	}
 }
